@@ -145,6 +145,7 @@ func (ex *Exec) verifyFunction(fn *ssa.Function, con *Contract) (rep *FuncReport
 	ex.private = nil
 	ex.privMaps = nil
 	ex.pureSeen = map[string]bool{}
+	ex.nilable = map[*Term]string{}
 	st := &State{reach: True(), cells: map[*ssa.Alloc]Val{}, heap: newHeap("")}
 	var args []Val
 	for i, p := range fn.Params {
@@ -239,6 +240,7 @@ func (ex *Exec) verifyFunction(fn *ssa.Function, con *Contract) (rep *FuncReport
 		top := &State{reach: True()}
 		ex.oblige(fr, top, "ensures", cl.Label, And(parts...), token.NoPos, cl.Text)
 	}
+	ex.valueOrErrorObligation(fr, fn)
 	env := mkEnv(res.st, res.vals)
 	if con.TrustedFrame {
 		ex.assumed["frame (modifies clause) of "+fr.label+" is assumed, not checked on its body"] = true
